@@ -45,6 +45,19 @@ theorem eq_case_table (x : Value) (l : Lit) (v : Value) (hl : l.compareValue = s
     (hs : eqSafe x v = true) : veq x v = valuesEqual x v :=
   veq_eq_valuesEqual x v (compareValue_kind hl) hs
 
+/-- the `eqEpsilon` guard is not only sufficient but exact: for an atom `field == literal` on an
+event that has the field, the two contexts agree **iff** the guard holds -/
+theorem eq_guard_exact (f : String) (l : Lit) (v x : Value) (ev : Event)
+    (hl : l.compareValue = some v) (hx : lookupV f ev = some x) :
+    whereAccepts (.cmp .eq (.field f) (.lit l)) ev = stepAccepts (.cmp .eq (.field f) (.lit l)) ev
+      ↔ agreeGuard (.cmp .eq (.field f) (.lit l)) ev = true := by
+  have htv : l.toValue = v := by cases l <;> simp_all [Lit.compareValue]
+  have hk := compareValue_kind hl
+  simp only [whereAccepts, stepAccepts, agreeGuard, evalE, evalOperand, toPred, comparePath, hl, hx, htv,
+    Option.map_some, evalP, evalCmp, compareValues, whyWeak, whyCmpWeak, isTrue_bool]
+  rw [eqSafe_exact x v hk]
+  cases eqSafe x v <;> simp
+
 /-- ordering comparisons of a field with a literal need no guard at all: numeric pairs (mixed
 included) and string pairs compute the same order in both contexts, every other pair is rejected
 by both -/
